@@ -63,6 +63,18 @@ R3 = {
  'C20-write-stamp-after-forward':'every write succeeded; variant with the first write refused further down (transport error) after it passed the idle handler',
  'C01-recycle-loopvar-alias':'caught by C10 (same mechanism as a round-1 C10 delivery)',
 }
+R4 = {
+ 'C01-recycle-loopvar-alias-r4':'caught by C10 (third independent delivery of this mechanism)',
+ 'C05-writefail-close-before-drain':'the failing write was the only one; further writes are now issued behind it so that packets can be queued behind the failing batch',
+ 'C06-eof-close-skips-drain':'Close arguments had no end-of-stream class; close kinds 6 (io.EOF) and 7 (wrapped io.ErrUnexpectedEOF)',
+ 'C07-ctx-trigger-dedup':'ctx.Write / ctx.Trigger were only called from inside a delivery (a framework recover above them); entries 5/6 use a handler context the application kept, from a goroutine of its own',
+ 'C11-isactive-from-context':'one Close call per run; `ZZ_C11_TwoClosers`: the losing Close returns while the winning one is still inside Close, a write that begins after either returned must fail (C05 already reported the change through IsActive)',
+ 'C12-tcp-options-defaults':'transport/tcp was outside the loaded packages and harness-allocated objects are exempt from the monitor; `ZZ_C12_Options` in package tcp with `vrt.Monitored(opts)` (a caller-owned value the API shares between goroutines is not a probe)',
+ 'C13-accept-shutdown-check-hoisted':'a connection that Accept handed out but that never became a channel was indistinguishable from one that was never accepted (both unread, unclosed); the mock acceptor now marks what it hands out',
+ 'C13-bufconn-close-flush-err':'C13 ran on mock transports only; `ZZ_C13_BufferedClose`: a channel over the real buffered wrappers on a connection whose writes fail - after Close the connection itself is closed exactly once',
+ 'C14-flush-after-idle':'caught by C06 (it is the graceful-close property that breaks)',
+ 'C18-close-error-on-ctx-end':'no waiting caller whose context ends while a Close is pending behind the stalled sender; scenario 4, with the new `vrt.QuiesceIdle` (a poll loop the harness itself keeps alive is not a hang)',
+}
 rows = []
 for d in sorted(glob.glob('/verif/seeded/*/')):
     m = json.load(open(d + 'meta.json'))
@@ -79,4 +91,4 @@ def table(rnd, notes):
     return '\n'.join(out)
 if __name__ == '__main__':
     import sys
-    print(table(int(sys.argv[1]), {'1': R1, '2': R2, '3': R3}[sys.argv[1]]))
+    print(table(int(sys.argv[1]), {'1': R1, '2': R2, '3': R3, '4': R4}[sys.argv[1]]))
